@@ -55,7 +55,7 @@ Fixpoint ridder (f : T -> T) (acc : T) (fuel : nat) (x1 x2 f1 f2 result : T) : r
   match fuel with
   | O => Ok result      (* "Iterations exceed the maximum": a warning, the last iterate is returned *)
   | S fuel' =>
-      let x3 := ((x1 + x2) / c2)%num in
+      let x3 := (ndec Ops 1 2 * x1 + ndec Ops 1 2 * x2)%num in
       let f3 := f x3 in
       (* scale = max(|f3|, max(|f1|, |f2|)); g_i = f_i / scale; Ridder's point from the g_i; NaN -> midpoint *)
       let sc := nmax Ops (nabs Ops f3) (nmax Ops (nabs Ops f1) (nabs Ops f2)) in
@@ -345,7 +345,7 @@ Fixpoint ridder_st (f : sfun1) (acc : T) (fuel : nat) (x1 x2 f1 f2 result : T) (
   match fuel with
   | O => rbind (f result s) (fun vs => Ok (result, snd vs))
   | S fuel' =>
-      let x3 := ((x1 + x2) / c2)%nst in
+      let x3 := (ndec Ops 1 2 * x1 + ndec Ops 1 2 * x2)%nst in
       rbind (f x3 s) (fun vs3 =>
         let f3 := fst vs3 in
         let sc := nmax Ops (nabs Ops f3) (nmax Ops (nabs Ops f1) (nabs Ops f2)) in
@@ -432,14 +432,16 @@ Definition rejection_sampling_2d_st (PDF : sfun2) (xMin xMax yMin yMax zMax : T)
   rejection2_loop_st (Z.to_nat 10000) PDF xMin xMax yMin yMax zMax s 0.
 
 (** ** Sample_Metropolis: candidate drawn, then (inside the domain only) PDF(candidate), PDF(x), then the accept deviate *)
-Definition accept1_st (PDF : sfun1) (dom : option (T * T)) (x cand : T) (s : st) : res (T * st) :=
-  let ratio :=
-    rbind (PDF cand s) (fun fc => rbind (PDF x (snd fc)) (fun fx =>
-      Ok (nmin Ops c1 (fst fc / fst fx)%nst, snd fx))) in
+Definition inside1 (dom : option (T * T)) (cand : T) : bool :=
   match dom with
-  | Some (lo, hi) => if nltb Ops cand lo || ngtb Ops cand hi then Ok (c0, s) else ratio
-  | None => ratio
+  | Some (lo, hi) => negb (nltb Ops cand lo || ngtb Ops cand hi)
+  | None => true
   end.
+Definition accept1_st (PDF : sfun1) (dom : option (T * T)) (x cand : T) (s : st) : res (T * st) :=
+  if inside1 dom cand then
+    rbind (PDF cand s) (fun fc => rbind (PDF x (snd fc)) (fun fx =>
+      Ok (nmin Ops c1 (fst fc / fst fx)%nst, snd fx)))
+  else Ok (c0, s).       (* the density is not evaluated for a candidate outside of the domain *)
 (* every step takes at least two uniforms from the sampler's stream: its length bounds the number of steps (fuel) *)
 Fixpoint metro_loop_st (fuel : nat) (PDF : sfun1) (sigma : T) (dom : option (T * T)) (burn thin imax : Z)
     (s : st) (i : Z) (x : T) (acc : list T) : res (list T * st) :=
@@ -469,16 +471,17 @@ Definition sample_metropolis_st (PDF : sfun1) (sigma : T) (sample thin burn : Z)
   end.
 
 (** ** Sample_Metropolis_2D *)
-Definition accept2_st (PDF : sfun2) (dom : option (T * T * T * T)) (x cand : T * T) (s : st) : res (T * st) :=
-  let ratio :=
-    rbind (PDF (fst cand) (snd cand) s) (fun fc => rbind (PDF (fst x) (snd x) (snd fc)) (fun fx =>
-      Ok (nmin Ops c1 (fst fc / fst fx)%nst, snd fx))) in
+Definition inside2 (dom : option (T * T * T * T)) (cand : T * T) : bool :=
   match dom with
   | Some (x0, x1, y0, y1) =>
-      if nltb Ops (fst cand) x0 || ngtb Ops (fst cand) x1 || nltb Ops (snd cand) y0 || ngtb Ops (snd cand) y1 then Ok (c0, s)
-      else ratio
-  | None => ratio
+      negb (nltb Ops (fst cand) x0 || ngtb Ops (fst cand) x1 || nltb Ops (snd cand) y0 || ngtb Ops (snd cand) y1)
+  | None => true
   end.
+Definition accept2_st (PDF : sfun2) (dom : option (T * T * T * T)) (x cand : T * T) (s : st) : res (T * st) :=
+  if inside2 dom cand then
+    rbind (PDF (fst cand) (snd cand) s) (fun fc => rbind (PDF (fst x) (snd x) (snd fc)) (fun fx =>
+      Ok (nmin Ops c1 (fst fc / fst fx)%nst, snd fx)))
+  else Ok (c0, s).
 Fixpoint metro2_loop_st (fuel : nat) (PDF : sfun2) (s1 s2 : T) (dom : option (T * T * T * T)) (burn thin imax : Z)
     (s : st) (i : Z) (x : T * T) (acc : list (T * T)) : res (list (T * T) * st) :=
   if i <? imax then
